@@ -81,6 +81,13 @@ def run(ck, rng, tier):
             ysc = np.abs(Y - Y.mean(axis=0)).max() + 1e-300
             cond = max(cond, float(np.linalg.cond(Z / np.sqrt((Z ** 2).sum(axis=0)))))   # condition of the (column-normalised) design matrix
             base = (X, Y, Xnew, o, cond)
+            if cond > 1e5:
+                # offsets of the predictors that are large compared with their spread make the design
+                # matrix [1 X] ill-conditioned whatever the condition of X: beyond 10x the stated bound
+                # (1e4) the case is outside the property's domain
+                ck.count("outside domain: design condition above 1e5")
+                base = None
+                continue
             bad = None
             # normal equations: residuals sum to zero and are orthogonal to every predictor (independent oracle: numpy lstsq)
             ne = np.abs(Z.T @ R).max() / (np.abs(Z).max() * ysc * n)
